@@ -395,7 +395,20 @@ def annotate (o : Opts) (n : Node) (r : Option Nat) (s : St) : Option Nat × St 
       (some r', s')
     else (some ref, s)
 
-/-- `_to_diagram_element` (:504-754); `none` = out of fuel -/
+/-- body of `_to_diagram_element` for an existing element, given the converter for the recursive calls -/
+def convBody (g : Grammar) (o : Opts)
+    (rec : Nat → Option Nat → Nat → Option String → St → Option (Option Nat × St))
+    (el : Nat) (n : Node) (parent : Option Nat) (index : Nat) (hint : Option String) (s : St) :
+    Option (Option Nat × St) :=
+  match pre g o el n parent index hint s with
+  | .ret r s' => some (r, s')
+  | .pass c h => rec c parent index h s
+  | .loop ret s' =>
+    match loopKids rec ret n.kids 0 s' with
+    | none => none
+    | some s'' => some (post el n hint ret s'')
+
+/-- `_to_diagram_element` (:504-754) with its decorator; `none` = out of fuel -/
 def conv (g : Grammar) (o : Opts) : Nat → Nat → Option Nat → Nat → Option String → St →
     Option (Option Nat × St)
   | 0, _, _, _, _, _ => none
@@ -403,15 +416,7 @@ def conv (g : Grammar) (o : Opts) : Nat → Nat → Option Nat → Nat → Optio
     match g[el]? with
     | none => some (none, s)
     | some n =>
-      let r : Option (Option Nat × St) :=
-        match pre g o el n parent index hint s with
-        | .ret r s' => some (r, s')
-        | .pass c h => conv g o f c parent index h s
-        | .loop ret s' =>
-          match loopKids (conv g o f) ret n.kids 0 s' with
-          | none => none
-          | some s'' => some (post el n hint ret s'')
-      match r with
+      match convBody g o (conv g o f) el n parent index hint s with
       | none => none
       | some (r, s') => some (annotate o n r s')
 
@@ -486,6 +491,20 @@ def toRailroad (g : Grammar) (o : Opts) (fuel root : Nat) : Option (List Named) 
   match convertRoot g o fuel root with
   | none => none
   | some s => some (sortByIndex ((selected s).map (entryTree s)))
+
+/-! ### the hypothesis of the termination theorem, executable -/
+
+def customOf (g : Grammar) (u : Nat) : Option String := (g[u]?).bind (·.custom)
+
+/-- an element at which a second visit stops: custom-named and worth extracting -/
+def cut (g : Grammar) (u : Nat) : Bool := truthy (customOf g u) && worth g u
+
+/-- every edge into an element that is not a cut decreases `rank` -/
+def rankedB (g : Grammar) (rank : Nat → Nat) : Bool :=
+  (List.range g.length).all (fun u => (kidsOf g u).all (fun c => cut g c || decide (rank c < rank u)))
+
+/-- recursion depth that `terminates_partial` proves sufficient -/
+def fuelBound (g : Grammar) (R : Nat) : Nat := g.length * (R + 3) + R + 2
 
 /-! ### observables of the output (what the statement of C20 speaks about) -/
 
